@@ -250,16 +250,29 @@ func main() {
 				continue
 			}
 			ref0, _ := w.Enc.Marshal(v0)
-			ref := gen.Canonical(ref0)
+			ref := gen.CanonicalContent(ref0)
 			for _, u := range gen.FindUnits(d.root) {
 				for _, m := range w.UnitMutations(d.root, u, hints, donors[u.Kind+"|"+u.Hint]) {
-					mb := gen.RenderJSON(m.Apply(d.root))
+					mroot := m.Apply(d.root)
+					if m.Rehash {
+						nb, ok := w.RehashNodeOperation(gen.RenderJSON(gen.Get(mroot, u.At)))
+						if !ok {
+							continue // not a node operation / does not decode: the plain variant covers it
+						}
+						nu, err := gen.ParseJSON(nb)
+						if err != nil {
+							continue
+						}
+						mroot = gen.Set(mroot, u.At, nu)
+					}
+					mb := gen.RenderJSON(mroot)
 					st, v, _ := h.validate(d.ob.V, mb, w.NetworkID)
 					detected := st != "valid"
 					if st == "valid" {
 						// a mutation the decoder normalises away (extra array member of a fixed-size array, ...)
 						// is not a change of content
-						if bb, err := w.Enc.Marshal(v); err == nil && bytes.Equal(gen.Canonical(bb), ref) {
+						// (content = canonical JSON with times at the repository's millisecond precision)
+						if bb, err := w.Enc.Marshal(v); err == nil && bytes.Equal(gen.CanonicalContent(bb), ref) {
 							res.Dist("mutation-noop")
 							continue
 						}
